@@ -20,8 +20,8 @@ ENCODED = ["twisted.internet.task:Cooperator._tick", "twisted.internet.task:Coop
            "twisted.internet.task:CooperativeTask.stop", "twisted.internet.task:CooperativeTask._completeWith",
            "twisted.internet.task:CooperativeTask._checkFinish",
            "twisted.internet.task:CooperativeTask._oneWorkUnit"]
-BOUNDS = {"quick": {"n": 2, "slen": 3, "hist": 5, "n3": 3, "hist3": 4},
-          "thorough": {"n": 2, "slen": 4, "hist": 7, "n3": 3, "hist3": 6}}
+BOUNDS = {"quick": {"n": 2, "slen": 3, "hist": 4, "n3": 3, "hist3": 3},
+          "thorough": {"n": 2, "slen": 3, "hist": 5, "n3": 3, "hist3": 4}}
 B = {}
 BOUNDS_TEXT = ("Cooperator(started=True) with a list scheduler and a termination predicate that ends the tick after "
                "one work unit; n tasks (history: n=2 with <= hist operations, history3: n3=3 with <= hist3 "
@@ -365,8 +365,11 @@ def history3(scripts: List[int], ops: List[int]) -> bool:
 def _shards(nkey):
     def f(tier):
         n = BOUNDS[tier][nkey]
-        return [("len(ops) == 0 or ops[0] == %d" % o if o == 0 else "len(ops) >= 1 and ops[0] == %d" % o,)
-                for o in range(0, 5 * n + 2)]
+        # first operation; tick-first (the bulk) is split again on the first script step of task 0
+        out = [("len(ops) == 0",)]
+        out += [("len(ops) >= 1 and ops[0] == 0", "scripts[0] == %d" % s) for s in range(4)]
+        out += [("len(ops) >= 1 and ops[0] == %d" % o,) for o in range(1, 5 * n + 2)]
+        return out
     return f
 
 
@@ -376,9 +379,10 @@ HARNESSES = [
 ]
 
 VECTORS = {
-    "history": [([0, 0, 0, 0, 0, 0], [0, 0, 0, 0, 0]), ([1, 0, 3, 0, 2, 0], [0, 0, 7, 0, 0]),
-                ([1, 0, 0, 0, 0, 0], [0, 1, 7, 3, 0]), ([0, 0, 0, 0, 0, 0], [1, 0, 3, 0, 11]),
-                ([1, 0, 0, 1, 0, 0], [0, 0, 9, 5, 0]), ([3, 0, 0, 2, 0, 0], [0, 0, 1, 6, 4])],
-    "history3": [([0] * 9, [0, 0, 0, 0]), ([1, 0, 0, 0, 0, 0, 0, 0, 0], [0, 0, 10, 0]),
-                 ([0, 0, 0, 0, 0, 0, 0, 0, 0], [0, 1, 0, 0]), ([0, 0, 0, 2, 0, 0, 0, 0, 0], [0, 0, 0, 16])],
+    "history": [([0, 0, 0, 0, 0, 0], [0, 0, 0, 0]), ([1, 0, 3, 0, 2, 0], [0, 0, 7, 0]),
+                ([1, 0, 0, 0, 0, 0], [0, 1, 7, 3]), ([0, 0, 0, 0, 0, 0], [1, 0, 3, 11]),
+                ([1, 0, 0, 1, 0, 0], [0, 0, 9, 5]), ([3, 0, 0, 2, 0, 0], [0, 0, 1, 6]),
+                ([1, 0, 0, 0, 0, 0], [0, 5, 9, 1])],
+    "history3": [([0] * 9, [0, 0, 0]), ([1, 0, 0, 0, 0, 0, 0, 0, 0], [0, 10, 0]),
+                 ([0, 0, 0, 0, 0, 0, 0, 0, 0], [0, 1, 0]), ([0, 0, 0, 2, 0, 0, 0, 0, 0], [0, 0, 16])],
 }
